@@ -37,6 +37,9 @@ CLAIMED = {
  'C10': ('PBT: hypothesis class-heavy grammars with ignore, multi-line inputs, pos > 0; spans recorded by the reference interpreter walked in parallel, independent line/column, containment',
          'Generated-input search: rich grammars (generated classes, class templates, class recursion, classes under repetition/option/lookahead/choice/templates) and core grammars wrapped in classes (text and bytes), all with an ignore pattern for blanks and newlines, on token strings with blanks/newlines inserted everywhere, at pos 0 and behind a junk prefix; for every instance that consumed input start.index, end.index, line and column are compared with the span recorded by the reference (also in partial_result), plus type well-formedness (never a raw tuple) and child-inside-parent on sourcer\'s own data.',
          'Offsets holding a line break are excepted from line/column (as in the statement); containment only without lookahead/Backtrack.'),
+ 'C11': ('PBT: hypothesis union generator (rich, core+ignore text/bytes, operator tables, deep nesting); differential across 9 production variants incl. emitted source imported by a separate -I -S interpreter and an extension executed next to its parent',
+         'Generated-input search: each description is compiled unnamed, unnamed again, with include_source, named, named with include_source; the emitted source of the unnamed and named variants is saved and imported by a separate interpreter started with -I -S whose sys.path (asserted) holds only the standard library and the temp directory; a grammar extending the named one runs in memory and as emitted source next to its parent. All variants must agree on outcome class, value and position for module-level parse and up to 4 further entries on all inputs of length <= 3 plus longer ones; the stand-alone process must not have imported outsourcer/sourcer.',
+         'Values compared by canonical structure; one stand-alone interpreter serves a batch of descriptions.'),
  'C13': ('PBT (stateful): hypothesis RuleBasedStateMachine over create-base / derive / parse histories (chains <= 3, siblings, dotted names, ignore in base and/or derived); oracle = AST-level flattening compiled stand-alone + reference interpreter; untouched-parent probe invariant',
          'Generated-history search: a rule-based state machine creates named base grammars, derives from any existing module (each rule inherited, overridden, or overridden using super; new rules; own ignore declarations) and parses through any module and any visible parameterless rule/class in any order. Every parse must equal the parse through the flattened stand-alone grammar (late binding = most-derived definition, super.R = private copy of the parent level\'s R, ignore declarations united) compiled by sourcer, and the reference interpreter on it; after every operation every existing module must still answer 15 probe inputs as when it was created.',
          'Derived grammars add ignore patterns only when an ancestor has some; inherited entry points that reach an override are excluded (known finding F13e, witness replayed).'),
